@@ -133,8 +133,14 @@ def run(ctx):
     ctx.check("C10-R5", "both variables hidden", len(names) == 1 and "SSL_CERT_FILE" in names[0] and "SSL_CERT_DIR" in names[0],
               "remove_vars_tmp is not called with SSL_CERT_FILE and SSL_CERT_DIR: %s" % names, where(g))
     g2 = A.find1(r"^wtransport::tls::utils::remove_vars_tmp::\{closure#0\}$")
-    ev = [e for p in nonpanic(walk(g2)) for e in event_strs(p)]
+    ps2 = nonpanic(walk(g2))
+    ev = [e for p in ps2 for e in event_strs(p)]
     ctx.check("C10-R5", "remove_vars_tmp removes each variable", any(e.startswith("remove_var(") for e in ev), "remove_vars_tmp no longer calls env::remove_var: %s" % ev[:4], where(g2))
+    # ... unconditionally: a removal that depends on how the value reads (set / valid UTF-8 / non-empty) leaves some values visible to rustls-native-certs
+    lacking = [list(path_sig(p)[0][-2:]) for p in ps2 if not any(re.match(r"^remove_var\(.*\bk\b.*\)$", e) for e in event_strs(p))]
+    ctx.check("C10-R5", "remove_vars_tmp removes each variable on every path", bool(ps2) and not lacking,
+              "remove_vars_tmp keeps a variable in the environment when %s: rustls-native-certs reads it with var_os and adds the certificates it names to the default trust anchors" % lacking[:2], where(g2),
+              key="remove_vars_tmp: unconditional removal")
 
     # default-feature build: the insecure verifier and its builder method do not exist
     ins = [fn.path for fn in B.fn_list if fn.path.endswith("with_no_cert_validation")]
